@@ -2447,4 +2447,48 @@ mod kani_verif {
         kani::cover!(h1 != h2);
         kani::cover!(h1 + 1 == buckets && buckets > 1);
     }
+
+    //--- C27: the archive's own records on corrupt input
+
+    /// Eight bytes of `data` starting at `at` as a native-endian integer.
+    fn ne_u64_at(data: &[u8], at: usize) -> u64 {
+        u64::from_ne_bytes([
+            data[at], data[at + 1], data[at + 2], data[at + 3],
+            data[at + 4], data[at + 5], data[at + 6], data[at + 7],
+        ])
+    }
+
+    /// C27: `ArchiveMeta::read` on any input (complete: it reads at most
+    /// 24 bytes) never panics, and whatever it accepts can be used by
+    /// `hash_name` (for names of up to two bytes) without panicking, the
+    /// result being a valid bucket index.
+    #[kani::proof]
+    #[kani::unwind(11)]
+    fn archive_meta_read_any_input() {
+        use crate::utils::binio::kani_verif::{
+            GuardedRead, any_input, same_at_any_index
+        };
+
+        let mut buf = [0u8; 25];
+        let data = any_input(&mut buf);
+        kani::cover!(data.len() == 25 && ne_u64_at(data, 16) == 0);
+        kani::cover!(data.len() == 25 && ne_u64_at(data, 16) == u64::MAX);
+        kani::cover!(data.len() == 23);
+        let mut reader = GuardedRead::new(data);
+        let res = ArchiveMeta::read(&mut reader);
+        if let Ok(meta) = res {
+            assert!(reader.consumed() == 24);
+            assert!(same_at_any_index(&meta.hash_key, data, 16));
+            assert!(usize_to_u64(meta.bucket_count) == ne_u64_at(data, 16));
+            let name: [u8; 2] = kani::any();
+            let name_len: usize = kani::any();
+            kani::assume(name_len <= 2);
+            // No division by zero for any header that was accepted.
+            let hash = meta.hash_name(&name[..name_len]);
+            assert!(hash < usize_to_u64(meta.bucket_count));
+        }
+        else {
+            assert!(data.len() < 24 || ne_u64_at(data, 16) == 0);
+        }
+    }
 }
